@@ -264,20 +264,21 @@ theorem stripLead_length_le (l : List String) : (stripLead l).length ≤ l.lengt
   unfold stripLead; split <;> simp
 
 /-- `createDataset(g, path, shape, …)`: `comps = strings.Split(path, "/")`, `cur` = the group `g`. Groups that are missing
-are created on the way and stay even when the dataset cannot be created. A new dataset reads as zeros. -/
-def createDs (dims : List Nat) (t : Tree) (cur : Path) (comps : List String) : Tree × Except String Path :=
+are created on the way and stay even when the dataset cannot be created. A new dataset reads as zeros.
+`paths[0] == ""` drops one leading empty component; if nothing is left, `paths[0]` panics (path "g/h/"). -/
+def createDs (dims : List Nat) (t : Tree) (cur : Path) (comps : List String) : Tree × Res Path :=
   match _h : stripLead comps with
-  | [] => (t, .error "create")
+  | [] => (t, .panic "index-out-of-range")
   | [name] =>
-    if name = "" then (t, .error "create")
+    if name = "" then (t, .err "create")
     else match find t (cur ++ [name]) with
-      | some _ => (t, .error "create")
+      | some _ => (t, .err "create")
       | none => (t ++ [(cur ++ [name], .ds dims (List.replicate (prodN dims) 0))], .ok (cur ++ [name]))
   | g :: r :: rest =>
     if g = "" ∨ g = "." then createDs dims t cur (r :: rest)
     else match find t (cur ++ [g]) with
       | some .group => createDs dims t (cur ++ [g]) (r :: rest)
-      | some (.ds _ _) => (t, .error "group")
+      | some (.ds _ _) => (t, .err "group")
       | none => createDs dims (t ++ [(cur ++ [g], .group)]) (cur ++ [g]) (r :: rest)
 termination_by comps.length
 decreasing_by
@@ -288,9 +289,9 @@ decreasing_by
     omega
 
 /-- `openOrCreateDataset(f, path, shape, example, compress=false)` -/
-def openOrCreate (t : Tree) (path : String) (shape : Idx) : Tree × Except String Path :=
+def openOrCreate (t : Tree) (path : String) (shape : Idx) : Tree × Res Path :=
   match openDataset t path with
-  | .ok (p, s, _) => if uintsToInts s = shape then (t, .ok p) else (t, .error "shape")
+  | .ok (p, s, _) => if uintsToInts s = shape then (t, .ok p) else (t, .err "shape")
   | .error _ => createDs (intsToUints shape) t [] (path.splitOn "/")
 
 /-- `Unroll()` of the source view, as values -/
@@ -310,7 +311,8 @@ def write (narrow : Bool) (h : Heap Int) (a : Arr) (d : Disk) (path : String) : 
     | .error e => (some t, .panic e)
     | .ok _ =>
       match openOrCreate t path a.v.dims with
-      | (t1, .error c) => (some t1, .err c)
+      | (t1, .err c) => (some t1, .err c)
+      | (t1, .panic e) => (some t1, .panic e)
       | (t1, .ok p) =>
         match unrollVals h a with
         | .error e => (some t1, .panic e)
@@ -328,7 +330,8 @@ def create (d : Disk) (path : String) (shape : Idx) : Disk × Res Unit :=
   | (d1, .error c) => (d1, .err c)
   | (_, .ok t) =>
     match openOrCreate t path shape with
-    | (t1, .error c) => (some t1, .err c)
+    | (t1, .err c) => (some t1, .err c)
+    | (t1, .panic e) => (some t1, .panic e)
     | (t1, .ok _) => (some t1, .ok ())
 
 /-- `WriteSlice(data, loc)`; the error of `WriteSubset` is swallowed (`return nil`) -/
